@@ -93,4 +93,70 @@ theorem proj_runFrom [DecidableEq κ] [DecidableEq φ] [DecidableEq ε] [Num ν]
       simp only [runFrom, proj, List.filter_cons, hkr, if_false, decide_false]
       exact ih hrs _ _ (by rw [step_other enc q st₁ r (enc k) henc, h])
 
+/-! ### the trace specification leaves no slack: it determines the deliveries -/
+
+theorem valsEq_decide_eq [DecidableEq ν] (a b : List (Option ν))
+    (h : valsEq (fun x y => decide (x = y)) a b = true) : a = b := by
+  induction a generalizing b with
+  | nil => cases b <;> simp_all [valsEq]
+  | cons x xs ih =>
+    cases b with
+    | nil => simp [valsEq] at h
+    | cons y ys =>
+      simp only [valsEq, Bool.and_eq_true] at h
+      have hxy : x = y := by
+        cases x <;> cases y <;> simp_all [optEq]
+      rw [hxy, ih ys h.2]
+
+theorem resultVerdict_ok_eq [DecidableEq κ] [DecidableEq ν] (want got : Result κ ν)
+    (h : resultVerdict (fun x y => decide (x = y)) true want got = .ok) : got = want := by
+  simp only [resultVerdict] at h
+  split at h
+  · cases h
+  · rename_i hk
+    split at h
+    · cases h
+    · rename_i hv
+      split at h
+      · cases h
+      · rename_i hb
+        have hk' : got.key = want.key := by simpa using hk
+        have hv' := valsEq_decide_eq got.vals want.vals (by simpa using hv)
+        simp only [Bool.true_and, Bool.or_eq_true, decide_eq_true_eq, not_or, ne_eq, Decidable.not_not] at hb
+        cases got; cases want; simp_all
+
+theorem stepVerdict_ok_unique [DecidableEq κ] [DecidableEq φ] [DecidableEq ν] [Num ν] (q : Query α φ ν)
+    (seg : List (Row κ φ ν)) (r : Row κ φ ν) (o₁ o₂ : Option (Result κ ν))
+    (h₁ : stepVerdict (fun x y => decide (x = y)) true q seg r o₁ = .ok)
+    (h₂ : stepVerdict (fun x y => decide (x = y)) true q seg r o₂ = .ok) : o₁ = o₂ := by
+  cases hp : predTrue q.pred seg <;> cases o₁ <;> cases o₂ <;> simp_all [stepVerdict]
+  rename_i a b
+  rw [resultVerdict_ok_eq _ _ h₁, resultVerdict_ok_eq _ _ h₂]
+
+theorem checkFrom_unique [DecidableEq κ] [DecidableEq φ] [DecidableEq ν] [Num ν] (q : Query α φ ν)
+    (rows : List (Row κ φ ν)) (i : Nat) (hist : List (Row κ φ ν × Bool)) (outs₁ outs₂ : List (Option (Result κ ν)))
+    (hl₁ : outs₁.length = rows.length) (hl₂ : outs₂.length = rows.length)
+    (h₁ : checkFrom (fun x y => decide (x = y)) true q i hist rows outs₁ = none)
+    (h₂ : checkFrom (fun x y => decide (x = y)) true q i hist rows outs₂ = none) : outs₁ = outs₂ := by
+  induction rows generalizing i hist outs₁ outs₂ with
+  | nil =>
+    cases outs₁ <;> cases outs₂ <;> simp_all
+  | cons r rs ih =>
+    cases outs₁ with
+    | nil => simp at hl₁
+    | cons o₁ t₁ =>
+      cases outs₂ with
+      | nil => simp at hl₂
+      | cons o₂ t₂ =>
+        simp only [checkFrom] at h₁ h₂
+        split at h₁
+        · rename_i hv₁
+          split at h₂
+          · rename_i hv₂
+            have ho := stepVerdict_ok_unique q _ r o₁ o₂ hv₁ hv₂
+            subst ho
+            rw [ih (i + 1) _ t₁ t₂ (by simpa using hl₁) (by simpa using hl₂) h₁ h₂]
+          · cases h₂
+        · cases h₁
+
 end Global
